@@ -137,6 +137,18 @@ class C17(Prop):
                 faults.append([st, tag, rng.choice(PHASES), kind, max(1, k)])
             cases.append({"f": "trace", "limit": lim, "manager": "rollback", "shape": shape, "faults": faults,
                           "sched": rng.randrange(1 << 30)})
+        # domino: file pipelines in which EVERY step fails c times with loss of data and the limit is tight, so that
+        # upstream jobs are re-executed as producers far more often than they fail themselves; the bound is judged on
+        # every job's execution count
+        for _ in range({"quick": 8, "thorough": 80, "extended": 30}[tier]):
+            n = rng.randrange(3, 6)
+            c = rng.choice([1, 2, 2])
+            lim = rng.randrange(c + 1, min(6, n * c + 1) + 1)
+            ph = rng.choice(["execute", "execute", "transfer", "schedule"])
+            cases.append({"f": "trace", "limit": lim, "manager": "rollback",
+                          "shape": {"kind": "pipeline", "type": "file", "n": n},
+                          "faults": [[f"/s{i}", "0", ph, "failstop", c] for i in range(n)],
+                          "sched": rng.randrange(1 << 30) if rng.random() < 0.5 else None})
         return cases
 
     # ---------------------------------------------------------------- implementation
@@ -203,7 +215,7 @@ class C17(Prop):
         if c["f"] == "hist":
             return self._run_hist(c)
         o = self.R.run_engine(c)
-        o["syncs"] = self.R.history_from_trace(o["trace"])
+        o["syncs"] = self.R.history_from_trace(o.get("trace", []))
         return o
 
     # ---------------------------------------------------------------- oracle (from the property text)
